@@ -110,3 +110,14 @@ Proof.
   - discriminate.
   - discriminate.
 Qed.
+
+Lemma classified_range_site_never_crashes : forall (kind : order_kind) (a b k : N),
+  kind <> UnknownOrder -> range_site_entry kind a b k <> Crash.
+Proof.
+  intros kind a b k Hk. unfold range_site_entry, text_range_new.
+  destruct kind; try contradiction;
+    repeat match goal with |- context [?x <? ?y] => destruct (N.ltb_spec x y) end; try discriminate; lia.
+Qed.
+
+Lemma unknown_range_site_refuted : exists a b k, range_site_entry UnknownOrder a b k = Crash.
+Proof. exists 20, 19, 0. reflexivity. Qed.
